@@ -47,13 +47,21 @@ class Edits:
         out = []
         cur = lo
         es = sorted(enumerate(self.e), key=lambda x: (x[1][0], x[1][3], x[0]))
+        # an edit that starts inside a region some pure deletion removes disappears with that region
+        dels = [(p_, p_ + d_) for (_i, (p_, d_, i_, _o)) in es if d_ > 0 and i_ == '']
+        def swallowed(idx, pos, dl, ins):
+            for a, b in dels:
+                if a <= pos < b and not (a == pos and b == pos + dl and ins == ''):
+                    if (b - a) > dl or ins != '':
+                        return True
+            return False
+        es = [x for x in es if not swallowed(x[0], x[1][0], x[1][1], x[1][2])]
         for _, (pos, dl, ins, _o) in es:
             if pos < lo or pos > hi:
                 continue
             if pos < cur:
-                # starts inside a region already deleted
+                # starts inside a region already deleted: its own text goes too
                 if dl:
-                    out.append(ins)
                     cur = max(cur, pos + dl)
                 continue
             out.append(text[cur:pos])
